@@ -232,6 +232,13 @@ func (e *PSEnv) assume(cond ssa.Value, val bool) bool {
 				return fixed == (val != kneg)
 			}
 		}
+		// facts are seeded before any phi is bound: also look the condition up as written
+		raw := &PSEnv{p: e.p, alias: map[*ssa.Phi]ssa.Value{}, nilness: map[ssa.Value]bool{}, conds: map[string]bool{}}
+		if key, kneg, ok := raw.condKey(c); ok {
+			if fixed, seeded := e.sticky[key]; seeded {
+				return fixed == (val != kneg)
+			}
+		}
 	}
 	// comparisons of integer constants (loop counters of `for range N`) are decided outright
 	if op, x, y, isCmp := Cmp(c); isCmp {
